@@ -45,6 +45,10 @@ type Res struct {
 	Headers416     H      // if non-nil, a 416 answer carries these headers instead of Headers
 	AbortOnce      int    // >=0 (with AbortOnceSet): only the next full transfer aborts after that many bytes
 	AbortOnceSet   bool
+	ETag304        string // what a 304 answer prints as ETag: "" = the current ETag, "-" = no validator headers at all, else this value
+	Headers304     H    // further headers a 304 answer carries (payload fields such as Content-Length / Content-Type that describe no body)
+	DateSkew       time.Duration // the origin's clock relative to the proxy's: Date = now + DateSkew
+	DialError      bool // the origin cannot be reached: RoundTrip fails before a byte of the request is sent
 }
 
 // ReqRec is one request as the origin received it.
@@ -126,6 +130,7 @@ type abortReader struct {
 }
 
 var ErrOriginAbort = errors.New("origin transfer aborted")
+var ErrOriginUnreachable = errors.New("dial tcp: connection refused (scripted)")
 
 func (a *abortReader) Read(p []byte) (int, error) {
 	if a.pos >= a.after {
@@ -144,6 +149,15 @@ func (o *Origin) RoundTrip(req *http.Request) (*http.Response, error) {
 		uri += "?" + req.URL.RawQuery
 	}
 	rec := ReqRec{Seq: len(o.Log), Method: req.Method, Host: req.URL.Host, URI: uri, Header: req.Header.Clone(), Thread: vsched.CurrentThread(), Scheme: req.URL.Scheme}
+	if r, ok := o.Resources[uri]; ok && r.DialError {
+		// like a real transport: the body is closed, not read, when the connection cannot be made
+		if req.Body != nil {
+			req.Body.Close()
+		}
+		rec.Status = -1
+		o.Log = append(o.Log, rec)
+		return nil, ErrOriginUnreachable
+	}
 	if req.Body != nil && req.Body != http.NoBody {
 		b, _ := io.ReadAll(req.Body)
 		rec.Body = string(b)
@@ -198,8 +212,17 @@ func MakeResponse(status int, h http.Header, body []byte, chunked bool, abortAft
 	return resp
 }
 
+// PutHost registers a resource that only the given host (as the proxy addresses it, lower case,
+// with the port if any) serves at uri; it takes precedence over a host-less registration.
+func (o *Origin) PutHost(host, uri string, r *Res) *Res {
+	return o.Put("//"+host+uri, r)
+}
+
 func (o *Origin) respond(req *http.Request, uri string, rec *ReqRec) *http.Response {
-	r, ok := o.Resources[uri]
+	r, ok := o.Resources["//"+strings.ToLower(req.URL.Host)+uri]
+	if !ok {
+		r, ok = o.Resources[uri]
+	}
 	if !ok {
 		h := http.Header{}
 		h.Set("Content-Type", "text/plain")
@@ -208,7 +231,7 @@ func (o *Origin) respond(req *http.Request, uri string, rec *ReqRec) *http.Respo
 	rec.Resource, rec.Version = r.Name, r.Version
 	h := r.Headers.ToHeader()
 	if !r.NoDate {
-		h.Set("Date", vtime.Peek().UTC().Format(http.TimeFormat))
+		h.Set("Date", vtime.Peek().Add(r.DateSkew).UTC().Format(http.TimeFormat))
 	}
 	if r.ETag != "" {
 		h.Set("ETag", r.ETag)
@@ -247,6 +270,16 @@ func (o *Origin) respond(req *http.Request, uri string, rec *ReqRec) *http.Respo
 			}
 		}
 		if notMod {
+			switch {
+			case r.ETag304 == "-":
+				h.Del("ETag")
+				h.Del("Last-Modified")
+			case r.ETag304 != "":
+				h.Set("ETag", r.ETag304)
+			}
+			for _, kv := range r.Headers304 {
+				h.Set(kv[0], kv[1])
+			}
 			return MakeResponse(304, h, nil, false, -1)
 		}
 	}
